@@ -213,3 +213,47 @@ Definition cmd_names (c : cmd) : list str :=
   | CRename o n => [o; n]
   | CList r p | CLsub r p => [r; list_pattern p; r ++ list_pattern p]
   end.
+
+(* ---------------------------------------------------------------- the mailbox table over histories
+   Which names become rows of the `mailboxes` table (LIST/LSUB only select rows of this table, and
+   LIST-STATUS calls get_mailbox(row name)).
+     OpGet n     any get_mailbox(n) that finds a folder (Mailbox.new inserts the row); also
+                 find_all_folders, which calls get_mailbox on every directory found below the root
+     OpCreate n  Mailbox.create: get_mailbox on every prefix of the canonical name (RENAME of the
+                 inbox is Mailbox.create(new name) as far as rows are concerned)
+     OpDelete n  removes the row
+     OpRename o n sel   _helper_rename_folder: every selected row r becomes new + r[len(old):].
+                 `sel` is an ARBITRARY predicate: SQLite's `name=? OR name LIKE 'old/%'` (wildcards in
+                 old, ASCII case folding) is not modelled, any choice of rows is allowed.
+   Over-approximation: rows are added even when the real code would refuse later. *)
+Inductive db_op :=
+| OpGet (n : str)
+| OpCreate (n : str)
+| OpDelete (n : str)
+| OpRename (o n : str) (sel : str -> bool).
+
+Definition rows_of (names : list str) : list str :=
+  flat_map (fun n => match canonical_mbox_name n with Ok c => [c] | Err _ => [] end) names.
+
+Definition db_step (d : list str) (o : db_op) : list str :=
+  match o with
+  | OpGet n => rows_of [n] ++ d
+  | OpCreate n => match canonical_mbox_name n with
+                  | Ok c => rows_of (create_chain c) ++ d
+                  | Err _ => d
+                  end
+  | OpDelete n => match canonical_mbox_name n with
+                  | Ok c => filter (fun r => negb (str_eqb r c)) d
+                  | Err _ => d
+                  end
+  | OpRename o n sel =>
+      match canonical_mbox_name n, canonical_mbox_name o with
+      | Ok cn, Ok co =>
+          if c_empty cn then d
+          else map (fun r => if sel r then cn ++ skipn (List.length co) r else r) d
+      | _, _ => d
+      end
+  end.
+
+Definition db_run (ops : list db_op) : list str := fold_left db_step ops [].
+
